@@ -19,6 +19,14 @@ def main(tier):
     try:
         vf.mc(ctx, "DebFile.tla", "DebFile.cfg", what="LoadFile: descriptors held = open handles")
         vf.mc(ctx, "Registry.tla", "Registry_lock.cfg", what="decompressor table: no race when callers serialise")
+        # the reader over a source that fails once: reported when the look-ahead's error is checked, lost as written (GF-6)
+        vf.mc(ctx, "ReaderSource.tla", "ReaderSource_checked.cfg", what="source error reported when the look-ahead checks it")
+        code2, out2 = vf.tlc(ctx, "ReaderSource.tla", "ReaderSource_aswritten.cfg", what="M ReaderSource (as written)")
+        lost = "Invariant ErrorReported is violated" in out2
+        vf.log("  M %-28s %-30s ErrorReported %s as the constructor is written" % ("ReaderSource.tla", "ReaderSource_aswritten.cfg",
+                                                                                  "is VIOLATED" if lost else "holds"))
+        if code2 == 0 or not lost:
+            raise vf.Broken("ReaderSource model: the look-ahead as written was expected to lose an error")
         vf.mc(ctx, "ChangelogHeaderMC.tla", "ChangelogHeaderMC.cfg", what="changelog header: scanner vs dpkg's grammar")
         code, out = vf.tlc(ctx, "Registry.tla", "Registry_none.cfg", what="M Registry (no discipline)")
         model_race = "Invariant NoRace is violated" in out
